@@ -71,17 +71,45 @@ def main(seed, nsessions, out):
                     p = pt(rng) if rng.random() < 0.5 else (a if isinstance(a, Point) else pt(rng))
                     if not isinstance(b, Point):
                         p in b  # noqa: B015
-                elif act < 0.85:
+                elif act < 0.82:
                     distance(a, b)
-                elif act < 0.92:
+                elif act < 0.88:
+                    rng.choice((angle, parallel, orthogonal))(a, b)
+                elif act < 0.93:
                     objs.append(copy.deepcopy(a))
                 else:
                     if isinstance(a, Segment):
                         a.length()
                     elif isinstance(a, ConvexPolyhedron):
                         a.volume()
+                    elif isinstance(a, ConvexPolygon):
+                        a.area()
             except Exception:  # noqa: BLE001  (unsupported pairs raise; they are logged with their exception)
                 pass
+    # angle / parallel / orthogonal on Line / Plane pairs whose directions are deliberately related (equal up to a factor,
+    # perpendicular, generic), function and method forms
+    for _ in range(nsessions * 3):
+        u = vec(rng)
+        rel = rng.random()
+        if rel < 0.3:
+            v = u * float(rng.choice((1, 2, -1, -3)))
+        elif rel < 0.6:
+            w = vec(rng)
+            v = u.cross(w)
+            if v.length() == 0:
+                v = w
+        else:
+            v = vec(rng)
+        mk = lambda d: Line(pt(rng), d) if rng.random() < 0.5 else Plane(pt(rng), d)
+        try:
+            a, b = mk(u), mk(v)
+            for f in (angle, parallel, orthogonal):
+                if rng.random() < 0.7:
+                    f(a, b)
+                else:
+                    getattr(a, f.__name__)(b)
+        except Exception:  # noqa: BLE001
+            pass
     # the solver on small integer / Fraction systems (exact arithmetic): truthiness, varargs and the returned tuples
     from fractions import Fraction
     for _ in range(nsessions * 2):
